@@ -361,7 +361,10 @@ def run(ctx):
                 return Sym("JSON", truthy=True, pytype=str)
             if dotted == "pathlib.Path":
                 p = a[0]
-                return Sym("PATHOBJ", truthy=True, attrs={"unlink": lambda interp, aa, kk, nn: log.append(("unlink", p, dict(kk)))})
+                # whether a file is already there is part of the quantifier: both answers are explored
+                return Sym("PATHOBJ", truthy=True, attrs={"unlink": lambda interp, aa, kk, nn: log.append(("unlink", p, dict(kk))),
+                                                           "exists": lambda interp, aa, kk, nn: interp.decide(("output file exists before the run",)),
+                                                           "is_file": lambda interp, aa, kk, nn: interp.decide(("output file exists before the run",))})
             raise AnalysisError("C18.R5", f"no model for external call {dotted}")
 
         logger = Sym("LOGGER", truthy=True, attrs={
@@ -370,9 +373,22 @@ def run(ctx):
                                         "fnname:get_xml_path": lambda interp, a, k, n: Sym("OUT2", truthy=True, pytype=str)})
         it._modcache = dict(it._modcache)
         it._modcache[("pyxform.xls2xform", "logger")] = logger
-        outs = list(explore(it, lambda: it.call_function(mc, [], {}, None, mc.node)))
-        desc = f"{'--json' if json_mode else 'plain'} outcome={outcome}"
-        for dec, out, eff, assumed in outs:
+        snapshots = []
+
+        def _one_run():
+            log.clear()
+            try:
+                r_ = it.call_function(mc, [], {}, None, mc.node)
+            except Raised:
+                snapshots.append(list(log))
+                raise
+            snapshots.append(list(log))  # (a run aborted to ask for a decision is re-run and does not count)
+            return r_
+        outs = list(explore(it, _one_run))
+        desc0 = f"{'--json' if json_mode else 'plain'} outcome={outcome}"
+        for run_i, (dec, out, eff, assumed) in enumerate(outs):
+            log = snapshots[run_i] if run_i < len(snapshots) else log
+            desc = desc0 + (f" [{', '.join(f'{k[0]}={v}' for k, v in dec.items())}]" if isinstance(dec, dict) and dec else "")
             unlinked = [e for e in log if e[0] == "unlink"]
             if json_mode:
                 resp = next((e[1] for e in log if e[0] == "json"), None)
@@ -472,6 +488,25 @@ def run(ctx):
     res2 = it.call_function(rt, [m("/html/body/select1")], {}, None, rt.node)
     r6.check(res1 == "${age}" and res2 == "/html/body/select1", "ErrorCleaner._replace_xpath_with_tokens",
              "instance paths are shown as ${name}; body/model paths are left alone", rt.loc(), why_fail=f"{res1!r} {res2!r}")
+    # the whole cleaner on diagnostic lines where an instance path is followed by each kind of character a sentence
+    # can continue with: every path is shown as ${name}, whatever follows it
+    ov_ = ec.methods.get("odk_validate")
+    cases = [
+        ("Error evaluating field '/data/grp/q2': bad", "Error evaluating field '${q2}': bad"),
+        ("References involved in the loop: /data/q1, /data/grp/q2.", "References involved in the loop: ${q1}, ${q2}."),
+        ("Problem with /data/q1 (and /data/grp/q2)", "Problem with ${q1} (and ${q2})"),
+        ("cycle: /data/a -> /data/b/c; /data/d/e.", "cycle: ${a} -> ${c}; ${e}."),
+        ("at end /data/q9", "at end ${q9}"),
+        ("[/data/q1]: x", "[${q1}]: x"),
+    ]
+    for src, want in cases:
+        it = ctx.interp("C18.R6")
+        it.reset([])
+        try:
+            got = it.call_function(ov_, [src], {}, None, ov_.node)
+        except Raised as e:
+            got = f"raises {e.exc_name}"
+        r6.check(got == want, f"ErrorCleaner.odk_validate[{src!r}]", f"-> {want!r}", ov_.loc(), why_fail=f"got {got!r}")
     rules.append(r6)
     return rules
 
